@@ -96,6 +96,10 @@ int sut_mux_session(const char *ics, size_t len, const char *ops, int cap, int m
 /* C09: direct filler call on an exact-size block; -1 if the rule is not accepted */
 int sut_fill(const char *rrule, sut_inst_t proto, int *count_out);
 
+/* daemon harness (sut_echsd.c): run a scripted session against the spool directory, returns the trace */
+int sut_daemon_session(const char *spooldir, const char *script, size_t len, sut_buf_t *out);
+double sut_daemon_tstamp(sut_inst_t);
+
 uint32_t sut_hash(const char *s, size_t n);
 void sut_reset(void);
 
